@@ -25,6 +25,7 @@ def answerLineBody (line : String) : String :=
       | "own" => BodyE.own kv
       | "heap" => BodyE.heap kv
       | "serde" => BodyE.serde kv
+      | "seq" => SeqE.answerBody kv
       | _ => "n/a"
     s!"{seq} {body}"
   | _ => "bad-line"
